@@ -522,7 +522,7 @@ int parse_directives(AsmContext *asm_context)
 
     if (asm_context->symbols.append(
           token,
-          asm_context->address / asm_context->bytes_per_address) != 0)
+          (uint32_t)asm_context->address / asm_context->bytes_per_address) != 0)
     {
       return -1;
     }
